@@ -48,7 +48,7 @@ STR_PREFIX = re.compile(r'(?:u8|u|U|L)?(R)?"')
 CHR_PREFIX = re.compile(r"(?:u8|u|U|L)?'")
 
 
-def lex(data, lang='C'):
+def lex(data, lang='C', strict_splice=False):
     """data: bytes.  Returns the token list (comments included, whitespace excluded)."""
     s = data.decode('latin-1')
     n = len(s)
@@ -86,7 +86,8 @@ def lex(data, lang='C'):
             i = j
             continue
         if c == '\\':
-            m = re.compile(r'\\[ \t]*(\r\n|\r|\n)').match(s, i)
+            # translation phase 2: backslash + line break; compilers (and uncrustify) also accept blanks in between unless strict
+            m = re.compile(r'\\(\r\n|\r|\n)' if strict_splice else r'\\[ \t]*(\r\n|\r|\n)').match(s, i)
             if m:
                 line += 1
                 i = m.end()
@@ -101,9 +102,9 @@ def lex(data, lang='C'):
                 while j < n:
                     if s[j] in '\r\n':
                         if splice_cmt:
-                            # backslash (optionally followed by blanks) right before the newline continues the comment
+                            # a backslash before the newline continues the comment (blanks in between allowed unless strict)
                             k = j - 1
-                            while k > i and s[k] in ' \t':
+                            while not strict_splice and k > i and s[k] in ' \t':
                                 k -= 1
                             if s[k] == '\\':
                                 j = j + 2 if s.startswith('\r\n', j) else j + 1
